@@ -3,6 +3,7 @@ import DracoProofs.QuantFloat
 import DracoProofs.QuantParams
 import DracoProofs.QuantSpecial
 import DracoProofs.QuantOracles
+import DracoProofs.QuantGrid
 /-
   C04 — float attribute quantization error.
 
@@ -17,6 +18,8 @@ import DracoProofs.QuantOracles
   * `quant_float_half_step`      any oracle obeying the standard rounding model with unit
                                  roundoff `u ≤ 2^-10` (float32: `u = 2^-24`): half step
                                  + `14·u·max(|x|,|min|,R)`; box enlarged by `16·u·max(…)`.
+  * `quant_float_constant_lower_bound`  the constant 14 cannot be lowered below 7.99: an oracle
+                                 inside the model errs by half a step + 7.99·u·max(…).
   * `computeParameters_range`    `ComputeParameters` yields min per component and
                                  range = largest extent (1 if all extents are 0).
   * `computeParameters_rejects_nan_inf`  NaN / ±Inf anywhere ⇒ `ComputeParameters` fails.
@@ -86,6 +89,52 @@ example :
     (biasedOps_model _ _ (by norm_num [abs_of_pos])) p 11 0 (22/7) (by norm_num)
     (by norm_num [p])
     (by show (-5/2 : ℚ) ≤ 22/7; norm_num) (by show (22/7 : ℚ) ≤ -5/2 + 10; norm_num)
+
+/-- How far the constant `14` of `quant_float_half_step` is from optimal.  First order count:
+    four roundings of the encoder act on the scaled value (`x - min`, `float(M)`, `/`, `*`) and
+    one on the sum with `0.5f`, so `floor` can return `t + 1/2 + 5·M·u`; the decoder adds three
+    more (`/`, `*`, `+`; the two `float(·)` conversions cancel when `k = M`).  The oracle
+    `biasedAllOps 2^-24` (every operation too large by the factor `1 + 2^-24`, inside the model)
+    realises `5 + 3` of them for `q = 10`, `min = 0`, `R = 1`,
+    `x = (M - 1/2 - (5M - 3)u)/M`: it quantizes `x` to `k = M = 1023` although
+    `x·M < M - 1/2`, and the decoded value is off by more than half a step plus `7.99·u·mag`
+    (`mag = max(|x|, |min|, R) = 1`).  Hence every constant `K` for which the theorem holds
+    satisfies `7.99 < K`; the proof gives `K = 14` (first order 13.3: the two independent
+    `float(·)` errors, the `(1+u)^n` cross terms up to `u ≤ 2^-10`, and `1.52·u·mag` for the
+    last addition, whose operand is bounded by `|x| + R/2`, not by `mag`). -/
+theorem quant_float_constant_lower_bound :
+    RoundingModel (biasedAllOps (1/2^24)) (1/2^24) ∧
+    (0:ℚ) ≤ (2045/2 - 5112/2^24) / 1023 ∧ ((2045/2 - 5112/2^24) / 1023 : ℚ) ≤ 0 + 1 ∧
+    @quantize ℚ (biasedAllOps (1/2^24)) ⟨[0], 1⟩ 10 0 ((2045/2 - 5112/2^24) / 1023) = 1023 ∧
+    (1:ℚ) / (2 * ((2:ℚ)^10 - 1)) + (799/100) * (1/2^24) * 1
+      < |@dequantize ℚ (biasedAllOps (1/2^24)) ⟨[0], 1⟩ 10 0 1023 - (2045/2 - 5112/2^24) / 1023| := by
+  refine ⟨biasedAllOps_model _ _ (by norm_num [abs_of_pos]), by norm_num, by norm_num, ?_, ?_⟩
+  · have h : @quantize ℚ (biasedAllOps (1/2^24)) ⟨[0], 1⟩ 10 0 ((2045/2 - 5112/2^24) / 1023)
+        = ⌊(((((2045/2 - 5112/2^24) / 1023 : ℚ) - 0) * (1 + 1/2^24)) *
+            ((((((2:Int)^10 - 1 : Int) : ℚ) * (1 + 1/2^24)) / 1) * (1 + 1/2^24)) * (1 + 1/2^24) + 1/2)
+              * (1 + 1/2^24)⌋ := rfl
+    rw [h, Int.floor_eq_iff]
+    constructor <;> norm_num
+  · have h : @dequantize ℚ (biasedAllOps (1/2^24)) ⟨[0], 1⟩ 10 0 1023
+        = (((((1023 : Int) : ℚ) * (1 + 1/2^24)) *
+            (((1:ℚ) / ((((2:Int)^10 - 1 : Int) : ℚ) * (1 + 1/2^24))) * (1 + 1/2^24)))
+            * (1 + 1/2^24) + 0) * (1 + 1/2^24) := rfl
+    rw [h]
+    norm_num [abs_of_pos]
+
+/-- the same instance obeys the theorem (non-vacuity of `quant_float_half_step` with the
+    all-biased oracle, at the input that comes closest to the bound) -/
+example :
+    |@dequantize ℚ (biasedAllOps (1/2^24)) ⟨[0], 1⟩ 10 0
+        (@quantize ℚ (biasedAllOps (1/2^24)) ⟨[0], 1⟩ 10 0 ((2045/2 - 5112/2^24) / 1023))
+      - (2045/2 - 5112/2^24) / 1023|
+      ≤ (1:ℚ) / (2 * ((2:ℚ)^10 - 1)) + 14 * (1/2^24)
+          * max (max |((2045/2 - 5112/2^24) / 1023 : ℚ)| |(0:ℚ)|) 1 :=
+  (quant_float_half_step (biasedAllOps (1/2^24)) (1/2^24) (by norm_num) (by norm_num)
+    (biasedAllOps_model _ _ (by norm_num [abs_of_pos])) ⟨[0], 1⟩ 10 0 ((2045/2 - 5112/2^24) / 1023)
+    (by norm_num) (by show (0:ℚ) < 1; norm_num)
+    (by show (0:ℚ) ≤ (2045/2 - 5112/2^24) / 1023; norm_num)
+    (by show ((2045/2 - 5112/2^24) / 1023 : ℚ) ≤ 0 + 1; norm_num)).2.1
 
 attribute [local instance] exactOps in
 /-- `ComputeParameters` (exact instance; attribute with ≥ 1 value, all values of `n`
